@@ -11,12 +11,31 @@ package vfs
 //@ func (FS).WriteFile
 //@   trusted
 //@   modifies nothing
+// Event counters for ordering arguments (C15): successful file writes / syncs / renames,
+// and what had been established when a rename or a removal was issued.
+//@ ghost var fileWrites Int
+//@ ghost var fileSyncs Int
+//@ ghost var fileCloses Int
+//@ ghost var renames Int
+//@ ghost var renameSawSyncs Int
+//@ ghost var renameSawCloses Int
+//@ ghost var removes Int
+//@ ghost var removeSawRenames Int
 //@ func (FS).Rename
 //@   trusted
+//@   ghost renames = (result == nil ? renames + 1 : renames)
+//@   ghost renameSawSyncs = fileSyncs
+//@   ghost renameSawCloses = fileCloses
+//@   modifies nothing
+//@ func (File).Write
+//@   trusted
+//@   ghost fileWrites = (err == nil ? fileWrites + 1 : fileWrites)
 //@   modifies nothing
 //@ func (FS).Remove
 //@   trusted
 //@   ghost unlinkedWhileUnlocked = unlinkedWhileUnlocked || !flockHeld
+//@   ghost removes = removes + 1
+//@   ghost removeSawRenames = renames
 //@   modifies nothing
 //@ func (FS).RemoveAll
 //@   trusted
@@ -60,8 +79,13 @@ package vfs
 //@ func (File).Close
 //@   trusted
 //@   ghost flockHeld = false
+//@   ghost fileCloses = fileCloses + 1
 //@   modifies nothing
 //@ func (File).Sync
+//@   trusted
+//@   ghost fileSyncs = (result == nil ? fileSyncs + 1 : fileSyncs)
+//@   modifies nothing
+//@ func (File).Seek
 //@   trusted
 //@   modifies nothing
 //@ func (File).Stat
